@@ -545,9 +545,27 @@ func (w *world) exec(batch []*sub, fail string) error {
 		// a batch of background reads that left the projection unchanged carries nothing the
 		// specification uses; it is counted, not logged
 		w.tr.skipped++
-		return nil
+	} else {
+		w.tr.emit(ev)
 	}
-	w.tr.emit(ev)
+	// what a dispatch cycle selected, at the moment it selected it
+	for i, c := range cqes {
+		if c.Error != nil || c.Completion == nil || c.Completion.Store == nil {
+			continue
+		}
+		cmds := batch[i].sqe.Submission.Store.Transaction.Commands
+		for j, cmd := range cmds {
+			if cmd.Kind != t_aio.ReadEnqueueableTasks || j >= len(c.Completion.Store.Results) || c.Completion.Store.Results[j].ReadEnqueueableTasks == nil {
+				continue
+			}
+			tasks := []any{}
+			for _, r := range c.Completion.Store.Results[j].ReadEnqueueableTasks.Records {
+				tasks = append(tasks, M{"id": r.Id, "counter": int64(r.Counter), "rootId": r.RootPromiseId})
+			}
+			o, bg := w.owner(batch[i])
+			w.tr.emit(M{"e": "select", "t": w.now, "o": o, "bg": bg, "tasks": tasks})
+		}
+	}
 	return nil
 }
 
